@@ -110,41 +110,128 @@ def litRat? (s : String) : Option Rat :=
     some (if neg then -v else v)
   | _, _ => none
 
+/- ## evaluation on probes: comparisons between integer-valued terms -/
+
+/-- an integer literal of the source, also `-1.0` (a decimal with a zero fraction) -/
+def litInt? (s : String) : Option Int :=
+  let cs := s.toList
+  let (neg, cs) := match cs with
+    | '-' :: r => (true, r)
+    | _ => (false, cs)
+  let ip := cs.takeWhile (· != '.')
+  let fp := (cs.dropWhile (· != '.')).drop 1
+  match digitsVal ip, (if fp.isEmpty then some 0 else digitsVal fp) with
+  | some i, some 0 => some (if neg then -(i : Int) else (i : Int))
+  | _, _ => none
+
+def cmpInt (op : String) (x y : Int) : Option Bool :=
+  if op == "==" then some (x == y) else if op == "!=" then some (x != y)
+  else if op == "<" then some (decide (x < y)) else if op == "<=" then some (decide (x ≤ y))
+  else if op == ">" then some (decide (x > y)) else if op == ">=" then some (decide (x ≥ y))
+  else none
+
+/-- value of a condition under a valuation of its integer-valued terms (`τ`; literals are read by `litInt?`,
+    pointers are numbered) and of its boolean atoms (`β`); `==` / `!=` between two boolean atoms is allowed.
+    `none`: a leaf the valuation does not know — every equivalent rewrite within this vocabulary keeps the value. -/
+def Ex.evalN (τ : String → Option Int) (β : String → Option Bool) : Ex → Option Bool
+  | .atom s => β s
+  | .cmp op l r =>
+    let tv := fun (x : String) => match τ x with
+      | some v => some v
+      | none => litInt? x
+    match tv l, tv r with
+    | some x, some y => cmpInt op x y
+    | _, _ =>
+      match op, β l, β r with
+      | "==", some x, some y => some (x == y)
+      | "!=", some x, some y => some (x != y)
+      | _, _, _ => none
+  | .not e => (e.evalN τ β).map (!·)
+  | .and a b => match a.evalN τ β, b.evalN τ β with
+    | some x, some y => some (x && y)
+    | _, _ => none
+  | .or a b => match a.evalN τ β, b.evalN τ β with
+    | some x, some y => some (x || y)
+    | _, _ => none
+
+/-- a state of `removeTip` / of the loop of `RemoveTips` as far as their conditions look at it -/
+structure Probe where
+  tdeg : Int := 1        -- len(tip.neigh)
+  deg : Int := 3         -- len(internal.neigh)
+  d1 : Int := 3          -- len(n1.neigh)
+  d2 : Int := 3          -- len(n2.neigh)
+  l1 : Int := 0          -- length1 (as an integer; -1 = absent)
+  l2 : Int := 0
+  s1 : Int := 0          -- sup1
+  s2 : Int := 0
+  nilLen : Int := -1     -- NIL_LENGTH, NIL_SUPPORT as found in tree/edge.go
+  nilSup : Int := -1
+  tipIsInternal : Bool := false   -- internal == tip (the tip is the root)
+  isRoot : Bool := false          -- internal == t.Root()
+  err : Bool := false             -- err != nil
+  rooted : Bool := false
+  dir1 : Bool := true
+  dir2 : Bool := true
+  ok : Bool := false
+
+def Probe.τ (p : Probe) : String → Option Int
+  | "len(tip.neigh)" => some p.tdeg | "tip.Nneigh()" => some p.tdeg
+  | "len(internal.neigh)" => some p.deg | "internal.Nneigh()" => some p.deg
+  | "len(n1.neigh)" => some p.d1 | "n1.Nneigh()" => some p.d1
+  | "len(n2.neigh)" => some p.d2 | "n2.Nneigh()" => some p.d2
+  | "n.Nneigh()" => some p.deg | "len(n.neigh)" => some p.deg
+  | "length1" => some p.l1 | "length2" => some p.l2 | "sup1" => some p.s1 | "sup2" => some p.s2
+  | "NIL_LENGTH" => some p.nilLen | "NIL_SUPPORT" => some p.nilSup
+  | "internal" => some 1
+  | "tip" => some (if p.tipIsInternal then 1 else 3)
+  | "t.Root()" => some (if p.isRoot then 1 else 2)
+  | "err" => some (if p.err then 1 else 0) | "reftree.Err" => some (if p.err then 1 else 0)
+  | "nil" => some 0
+  | _ => none
+
+def Probe.β (p : Probe) : String → Option Bool
+  | "rooted" => some p.rooted | "dir1" => some p.dir1 | "dir2" => some p.dir2 | "ok" => some p.ok
+  | "n1.Tip()" => some (p.d1 == 1) | "n2.Tip()" => some (p.d2 == 1)
+  | "true" => some true | "false" => some false
+  | _ => none
+
+def Probe.eval (p : Probe) (e : Ex) : Option Bool := e.evalN p.τ p.β
+
+def bools : List Bool := [false, true]
+def degs : List Int := [0, 1, 2, 3, 4]
+def vals : List Int := [-1, 0, 1, 3]
+
 /- ## what the model expects -/
 
 /-- `RemoveTips`: the rootedness is read once before the loop -/
 def expRtPre : List String := ["rooted := t.Rooted()"]
 def expRtRange : String := "t.Tips()"
-def expRtGuards : List (Ex × List String) :=
-  [(.cmp "!=" "len(tip.neigh)" "1", ["return errors.New(\"The node named \" + tip.Name() + \" is not a tip\")"])]
 def expRtCallArgs : List String := ["tip, rooted"]
 /-- the tip index first, then the branch indexes (bitsets, hashes, depths) that depend on it -/
 def expRtPost : List String := ["t.UpdateTipIndex()", "t.ReinitInternalIndexes()"]
 
+/-- `removeLoop`: a listed tip that no longer has exactly one neighbour stops the call -/
+def expRtGuard (p : Probe) : List (Option Bool × Bool) := [(some (p.tdeg != 1), true)]
+
 /-- `removeTip`: not a tip / the tip is the root / delNeighbor failed / case 1 / case 2 with the
-    rooted-root exception (50ed682) -/
-def expTipIfs : List Ex :=
-  [.cmp "!=" "len(tip.neigh)" "1",
-   .cmp "==" "internal" "tip",
-   .cmp "!=" "err" "nil",
-   .cmp "==" "len(internal.neigh)" "1",
-   .and (.cmp "==" "len(internal.neigh)" "2") (.not (.and (.atom "rooted") (.cmp "==" "internal" "t.Root()")))]
-def expTipChain : List Ex := [.and (.cmp "!=" "t.Root()" "internal") (.cmp "==" "len(internal.neigh)" "1")]
-/-- `fuseEdge`: length -/
-def expSetLength : List (Ex × String) :=
-  [(.or (.cmp "!=" "length1" "NIL_LENGTH") (.cmp "!=" "length2" "NIL_LENGTH"), "math.Max(0, length1) + math.Max(0, length2)")]
-/-- `fuseEdge`: support -/
-def expSetSupport : List (Ex × String) :=
-  [(.and (.and (.or (.cmp "!=" "sup1" "NIL_SUPPORT") (.cmp "!=" "sup2" "NIL_SUPPORT")) (.cmp ">" "len(n1.neigh)" "1"))
-      (.cmp ">" "len(n2.neigh)" "1"), "math.Max(sup1, sup2)")]
+    rooted-root exception (50ed682) — `finishNode`, `rootAfterLoss`, `removeTipR` -/
+def expTipIfs (p : Probe) : List (Option Bool) :=
+  [some (p.tdeg != 1), some p.tipIsInternal, some p.err, some (p.deg == 1),
+   some (p.deg == 2 && !(p.rooted && p.isRoot))]
+/-- the chain of case 1 goes on while the node is not the root and is left with one neighbour -/
+def expTipChain (p : Probe) : List (Option Bool) := [some (!p.isRoot && p.deg == 1)]
+/-- `fuseEdge`: a length is set unless both are absent -/
+def expLenGuard (p : Probe) : List (Option Bool) := [some (p.l1 != -1 || p.l2 != -1)]
+def expLenArg : List String := ["math.Max(0, length1) + math.Max(0, length2)"]
+/-- `fuseEdge`: a support is set unless both are absent or one end is a tip (`bothInner`) -/
+def expSupGuard (p : Probe) : List (Option Bool) := [some ((p.s1 != -1 || p.s2 != -1) && decide (p.d1 > 1) && decide (p.d2 > 1))]
+def expSupArg : List String := ["math.Max(sup1, sup2)"]
 /-- who becomes the parent of whom (the child is appended at the end of the parent's neighbours) -/
-def expConnect : List (Ex × String) :=
-  [(.and (.atom "dir1") (.atom "dir2"), "n1, n2"),
-   (.and (.not (.atom "dir1")) (.not (.atom "dir2")), "n2, n1"),
-   (.cmp ">" "len(n1.neigh)" "1", "n1, n2"),
-   (.cmp ">" "len(n2.neigh)" "1", "n2, n1")]
-def expSetRoot : List (Ex × String) :=
-  [(.cmp ">" "len(n1.neigh)" "1", "n1"), (.cmp ">" "len(n2.neigh)" "1", "n2")]
+def expConnect (p : Probe) : List (Option Bool × String) :=
+  [(some (p.dir1 && p.dir2), "n1, n2"), (some (!p.dir1 && !p.dir2), "n2, n1"),
+   (some (decide (p.d1 > 1)), "n1, n2"), (some (decide (p.d2 > 1)), "n2, n1")]
+def expSetRoot (p : Probe) : List (Option Bool × String) :=
+  [(some (decide (p.d1 > 1)), "n1"), (some (decide (p.d2 > 1)), "n2")]
 
 /-- cmd/prune.go: the file of `-f` and the tree of `-c` are read once, before the loop -/
 def expPruneReads : List (Ex × String) :=
@@ -158,9 +245,9 @@ def expPruneChain : List Branch :=
    ⟨none, [], ["revert, args..."]⟩]
 /-- the loop body: a failed input stops the command, then the chain, a failure stops the command (`pruneAll`),
     the result is written at once -/
-def expPruneBody : List String :=
-  ["if reftree.Err != nil { io.LogError(reftree.Err); return reftree.Err }", "<chain>",
-   "if err != nil { io.LogError(err); return }", "f.WriteString(reftree.Tree.Newick() + \"\\n\")"]
+def expPruneBody (p : Probe) : List (String × Option (Option Bool)) :=
+  [("if-return", some (some p.err)), ("<chain>", none), ("if-return", some (some p.err)),
+   ("f.WriteString(reftree.Tree.Newick() + \"\\n\")", none)]
 def expPruneFlags : List Flag :=
   [⟨"intreefile", "ref", "i", "StringVarP", "\"stdin\""⟩,
    ⟨"intree2file", "comp", "c", "StringVarP", "\"none\""⟩,
@@ -171,6 +258,6 @@ def expPruneFlags : List Flag :=
 /-- `specificTips(ref, comp)`: nodes with one neighbour of `comp`, then of `ref`, kept when unknown -/
 def expSpecParams : List String := ["ref", "comp"]
 def expSpecRanges : List String := ["comp.Nodes()", "ref.Nodes()"]
-def expSpecConds : List Ex := [.cmp "==" "n.Nneigh()" "1", .cmp "==" "n.Nneigh()" "1", .not (.atom "ok")]
+def expSpecConds (p : Probe) : List (Option Bool) := [some (p.deg == 1), some (p.deg == 1), some (!p.ok)]
 
 end Gotree.C06.Sites
